@@ -410,7 +410,7 @@ static mj::Value RandStep(Rng & R, const Message * m, int depth)
 {
    mj::Value s = mj::Value::Obj();
    mj::Value n = RandName(R, false);
-   if (R(3) == 0) n = ArrOf(kNames[R(2)]);          // concentrate on two names so that fields grow to dozens of items
+   if (R(2) == 0) n = ArrOf(kNames[R(2)]);          // concentrate on two names so that fields grow to dozens of items
    const String fn = NameOf(n);
    uint32 tc = 0, cnt = 0;
    const bool have = (m)&&(m->GetInfo(fn, &tc, &cnt).IsOK());
@@ -845,7 +845,7 @@ static int PyEcho(int argc, char ** argv)
       contents.push_back(c); sent.push_back(FlatPlain(*m())); bytes += sent.back().size();
       if (gw.AddOutgoingMessage(m).IsError()) return 2;
    }
-   const uint64 deadline = GetRunTime64() + SecondsToMicros(60);
+   const uint64 deadline = GetRunTime64() + SecondsToMicros(150);
    bool ioError = false;
    while ((got.size() < sent.size())&&(GetRunTime64() < deadline))
    {
@@ -859,7 +859,7 @@ static int PyEcho(int argc, char ** argv)
    {
       const bool eq = (i < got.size())&&(got[i] == sent[i]); if (eq) same++;
       std::string ln = mj::ToString(mj::Value::Obj().set("op", mj::Value::Str("PyEcho")).set("m", contents[i]).set("b", ArrOf(sent[i])).set("same", mj::Value::Int(eq ? 1 : 0))); ln += '\n'; fputs(ln.c_str(), tr);
-      if ((eq == false)&&(viol.size() < 3)) {char tmp[200]; snprintf(tmp, sizeof(tmp), "Message %zu of %zu sent to the Python transceiver %s", i, sent.size(), (i < got.size()) ? "comes back with other bytes" : (ioError ? "is not echoed: the connection broke" : "is not echoed within 60 s")); viol.push_back(tmp);}
+      if ((eq == false)&&(viol.size() < 3)) {char tmp[200]; snprintf(tmp, sizeof(tmp), "Message %zu of %zu sent to the Python transceiver %s", i, sent.size(), (i < got.size()) ? "comes back with other bytes" : (ioError ? "is not echoed: the connection broke" : "is not echoed within 150 s")); viol.push_back(tmp);}
    }
    fclose(tr);
    if (viol.size() > 0) ReportLine(mj::Value::Obj().set("violations", StrArr(viol)).set("seed", mj::Value::Int(seed)));
